@@ -37,6 +37,17 @@ impl ReaderKind {
             ReaderKind::Chaos { .. } => "chaos",
         }
     }
+    /// Deterministic pick from a selector (e.g. a hash of the input): mostly a slice, sometimes a
+    /// Cursor, a small BufReader or a randomised short-read reader. For monitors whose subject is
+    /// not the reader: the way the input arrives must not matter to them either.
+    pub fn from_selector(sel: u64) -> ReaderKind {
+        match sel % 8 {
+            5 => ReaderKind::Cursor,
+            6 => ReaderKind::Buf(1 + ((sel >> 3) % 7) as usize),
+            7 => ReaderKind::Chaos { seed: sel, k: [1usize, 3, 16, 64][((sel >> 3) % 4) as usize] },
+            _ => ReaderKind::Slice,
+        }
+    }
     pub fn random(rng: &mut Rng) -> ReaderKind {
         match rng.below(8) {
             0 => ReaderKind::Slice,
